@@ -16,11 +16,11 @@ namespace Jaq.Coll
 /-! ## switches: does the model follow the fixed code? -/
 
 /-- F-12a: `f <= isize::MAX as f64` (current) vs `f < isize::MAX as f64` (design/fixes/C12-round-upper-edge.diff) -/
-def fixedRoundGuard : Bool := false
+def fixedRoundGuard : Bool := true
 /-- F-12c: `flatten($d)` through `map … | add` (current) vs `[flattens($d)]` (design/fixes/C12-flatten-depth.diff) -/
-def fixedFlatten : Bool := false
+def fixedFlatten : Bool := true
 /-- F-12b: `totype` pipes through multi-valued `fromjson` (current) vs exactly one value (design/fixes/C12-tonumber-single.diff) -/
-def fixedToType : Bool := false
+def fixedToType : Bool := true
 
 def sKey : Val := .tstr [107, 101, 121]             -- "key"
 def sValue : Val := .tstr [118, 97, 108, 117, 101]  -- "value"
